@@ -1,6 +1,7 @@
 package main
 
 import (
+	"go/constant"
 	"go/token"
 	"go/types"
 	"sort"
@@ -363,6 +364,9 @@ func propagates(c *Ctx, e ssa.Value, def ssa.Instruction) (bool, string) {
 							}
 						}
 					}
+					if statusObjectExit(c, fn, x) {
+						continue // hands back how the process has to end; every caller ends it that way
+					}
 					return false, "the error branch returns from a function without an error result at " + c.Pos(x.Pos())
 				}
 				if !returnsNonNilError(x) {
@@ -413,4 +417,67 @@ func sortedFuncs(c *Ctx, m map[*ssa.Function]bool) []*ssa.Function {
 	}
 	sort.Slice(out, func(i, j int) bool { return c.FuncKey(out[i]) < c.FuncKey(out[j]) })
 	return out
+}
+
+// statusObjectExit: the function hands back a pointer to a struct of the module in which an int field holds a constant
+// other than 0 (an exit status), and every caller, where the result is not nil, ends the process with that very field.
+func statusObjectExit(c *Ctx, fn *ssa.Function, ret *ssa.Return) bool {
+	res := retResults(ret)
+	if len(res) != 1 {
+		return false
+	}
+	al, ok := res[0].(*ssa.Alloc)
+	if !ok {
+		return false
+	}
+	field := -1
+	for _, ref := range *al.Referrers() {
+		fa, ok := ref.(*ssa.FieldAddr)
+		if !ok {
+			continue
+		}
+		for _, r2 := range *fa.Referrers() {
+			if st, ok := r2.(*ssa.Store); ok && st.Addr == ssa.Value(fa) {
+				if k, isK := st.Val.(*ssa.Const); isK && k.Value != nil && k.Value.Kind() == constant.Int && k.Int64() != 0 {
+					field = fa.Field
+				}
+			}
+		}
+	}
+	if field < 0 {
+		return false
+	}
+	sites, good := 0, 0
+	for _, caller := range c.Funcs {
+		for _, ci := range callsIn(caller) {
+			if ci.Common().StaticCallee() != fn {
+				continue
+			}
+			sites++
+			v := ci.Value()
+			if v == nil {
+				continue
+			}
+			for _, ci2 := range callsIn(caller) {
+				call2, ok := ci2.(*ssa.Call)
+				if !ok || !noReturnCall(call2) || len(call2.Call.Args) != 1 {
+					continue
+				}
+				ld, ok := call2.Call.Args[0].(*ssa.UnOp)
+				if !ok || ld.Op != token.MUL {
+					continue
+				}
+				fa, ok := ld.X.(*ssa.FieldAddr)
+				if !ok || fa.X != ssa.Value(v) || fa.Field != field {
+					continue
+				}
+				for _, g := range guardsOf(call2.Block()) {
+					if x, isNil, ok := nilTestOf(g.Cond, g.Truth); ok && x == ssa.Value(v) && !isNil {
+						good++
+					}
+				}
+			}
+		}
+	}
+	return sites > 0 && good >= sites
 }
